@@ -870,8 +870,9 @@ def np_where(interp, name, args, kw, st, node):
         items = [fresh_arr(T("where", x.term, const(i)) if rank > 1 else T("nonzero1", x.term), (Dim.unknown("where"),), x.labels, "int") for i in range(rank)]
         return interp.mk_tuple(items)
     c, a, b = [arrv(x) for x in args[:3]]
-    if args[2].has_const and isinstance(args[2].const, (int, float)) and not isinstance(args[2].const, bool) and args[2].const == 0 and c.extra == "bool" and a.extra != "bool" and shape(a) not in (None, ()):
-        # where(m, x, 0) keeps x where the mask holds and is zero elsewhere: the product of x with the 0/1 mask
+    if args[2].has_const and isinstance(args[2].const, (int, float)) and not isinstance(args[2].const, bool) and args[2].const == 0 and c.extra == "bool" and a.extra != "bool" and shape(a) not in (None, ()) and shape(c) is not None and len(shape(c)) < len(shape(a)):
+        # where(m, x, 0) with a mask broadcast along the leading axes keeps the masked columns of x and zeroes the others:
+        # the product of x with the 0/1 mask (masks of the shape of x stay a selection, the form a comprehension vectorises to)
         return A.binop(interp, "mul", a, c, st, node)
     sh = A.broadcast(interp, A.broadcast(interp, shape(c), shape(a), st, node, what="where"), shape(b), st, node, what="where")
     return fresh_arr(T("where3", c.term, a.term, b.term), sh, _L(c, a, b))
@@ -1482,10 +1483,11 @@ def np_append(interp, name, args, kw, st, node):
         vv = arrv(v)
         sv, sx = shape(vv), shape(x)
         tot = None
-        if sx is not None and sv is not None and len(sx) == 1 and len(sv) <= 1:
-            tot = (sx[0] + (sv[0] if sv else Dim(1)),)
+        if sx is not None and sv is not None and len(sx) <= 1 and len(sv) <= 1:
+            tot = ((sx[0] if sx else Dim(1)) + (sv[0] if sv else Dim(1)),)
         vt = T("list", vv.term) if sv == () else vv.term
-        return fresh_arr(T("stack", const(0), x.term, vt), tot or (Dim.unknown("append"),), x.labels | vv.labels)
+        xt = T("list", x.term) if sx == () else x.term  # a scalar first operand is a one-element piece
+        return fresh_arr(T("stack", const(0), xt, vt), tot or (Dim.unknown("append"),), x.labels | vv.labels)
     return fresh_arr(callterm(name, args, kw), None, _L(*args, *kw.values()))
 
 
